@@ -268,7 +268,7 @@ def correspond(ctx):
         for comp in (False, True):
             with _Config(COMPRESSION=comp, ITER_STREAMING=True, SERIALIZER="serpent"):
                 for ser in SERS:
-                    for v in vals + (_sized_values(ser) if comp else []):
+                    for v in vals + _sized_values(ser):
                         tr = V.tree(v)
                         toks = " ".join(V.tokens(tr))
                         ntoks = " ".join(V.tokens(("L", [tr])))
@@ -403,7 +403,7 @@ def e2e_oracle(ctx):
         for comp in (False, True):
             with _Config(COMPRESSION=comp, ITER_STREAMING=True, SERIALIZER="serpent"):
                 for ser in SERS:
-                    for v in vals + (_sized_values(ser) if comp else []):
+                    for v in vals + _sized_values(ser):
                         _e2e_check(ctx, rigs, ser, comp, v)
     finally:
         rigs.close()
